@@ -65,8 +65,10 @@ def _with_empty_calls(chunks, k: int):
     out = []
     for i, ch in enumerate(chunks):
         if (i + k) % 7 == 0:
-            out.append(b"")
-            containers.used["calls_with_an_empty_chunk"] = containers.used.get("calls_with_an_empty_chunk", 0) + 1
+            # one to four of them in a row
+            for _ in range(1 + (i + k // 5) % 4):
+                out.append(b"")
+                containers.used["calls_with_an_empty_chunk"] = containers.used.get("calls_with_an_empty_chunk", 0) + 1
         out.append(ch)
     return out
 
